@@ -481,9 +481,8 @@ class Forms(Entry):
         fns = [("euler", {}), ("wrapper", {}), ("eq2sdss", {}), ("sdss2eq", {}), ("eq2xyz", {}), ("xyz2eq", {}), ("rotate", {})]
         k = 0
         for form in forms:
-            # quick: each form with three of the seven entry points (rotating); thorough: all of them
-            sel_fns = fns if not ctx.quick() else [fns[(k + j) % len(fns)] for j in range(3)]
-            k += 3
+            # every form with every entry point (the cases are cheap: one call and one exact-rational term each)
+            sel_fns = fns
             for fn, _ in sel_fns:
                 c = {"form": form, "family": "form:" + form, "kw": r.choice(["omit", "explicit", None])}
                 if c["kw"] == "explicit" and fn in ("euler", "wrapper"):
